@@ -641,8 +641,13 @@ def evaluate_cases(prop, case_iter, stats, max_mismatches=25, sample_every=None,
             pos += len(c.lines)
             if sum(1 for m in mismatches if m.case.kind == "prop") >= max_mismatches:
                 break       # enough failing inputs; do not burn watchdog time on more of them
-            obs = call_impl(c.impl, timeout=getattr(prop, "timeout", 2.0) * max(1, len(c.lines) // 20 + 1),
-                            err_map=prop.err_map)
+            t_ = getattr(prop, "timeout", 2.0) * max(1, len(c.lines) // 20 + 1)
+            obs = call_impl(c.impl, timeout=t_, err_map=prop.err_map)
+            if obs == "diverged":
+                # the watchdog runs on wall-clock time: on a loaded machine (other checks, disk traffic) a harmless case can be
+                # stalled past it.  A case is "diverged" only if it also exceeds a five times longer limit when run again.
+                obs = call_impl(c.impl, timeout=max(10.0, 5 * t_), err_map=prop.err_map)
+                stats.tags["watchdog-retry"] = stats.tags.get("watchdog-retry", 0) + 1
             if isinstance(obs, str):
                 obs = [obs] + (["-"] * (len(c.lines) - 1) if obs in ("diverged",) or obs.startswith("err ") else [])
                 if len(obs) != len(c.lines) and len(c.lines) > 1:
